@@ -347,3 +347,22 @@ CHECKS["C23"] = dict(
     design_ref="DESIGN.md 9/C23, 7.5",
     level_text="Exhaustive within bounds on the real kernel.",
 )
+
+CHECKS["C08"] = dict(
+    title="SegmentedQueue conserves items and bounds reordering",
+    units=[dict(name="segq1", src="harness/segq.cpp", cxxflags=["-DFAMILY=1"]),
+           dict(name="segq2", src="harness/segq.cpp", cxxflags=["-DFAMILY=2"]),
+           dict(name="segq3", src="harness/segq.cpp", cxxflags=["-DFAMILY=3"]),
+           dict(name="segq1-hb", src="harness/segq.cpp", cxxflags=["-DFAMILY=1"], args=["--hb"])],
+    rule="every schedule with <= c preemptions (plus, for the 'choose' families, every start cell of every scan as an environment choice: a start other than cell 0 costs one deviation) of enqueue/dequeue programs: all "
+         "unordered pairs of thread programs of length 1..2 on queues pre-filled with 0..3 items (quasi factor 2: the third item opens a second segment) plus deeper and 3-thread programs around the segment boundary; "
+         "outcome = per-thread log of operations with results",
+    aux_names=["histories_checked_against_all_four_rules", "aux1", "aux2", "aux3"],
+    explanation="container::SegmentedQueue and intrusive::SegmentedQueue (HP and DHP; spin lock and scheduler-aware mutex for the segment list; quasi factors 2, 3 (rounded to 4), 4 and 8; the random permutation "
+                "generator is replaced through the traits by one whose start cell the explorer decides, or by fixed ascending / descending scans). Checked on every history incl. the final drain: (1) conservation - every "
+                "enqueued value comes out exactly once and nothing else does; (2) quasi-FIFO bound - when x is dequeued, fewer than quasi-factor values whose enqueue returned before x's enqueue was invoked are still "
+                "inside (counted only if their dequeue was invoked after x's dequeue returned); (3) an empty answer only if every value whose enqueue returned before the call was invoked was taken by a dequeue invoked "
+                "before the call returned; (4) size()/empty() at the quiescent point equal the number of values the drain finds. " + HB_NOTE,
+    design_ref="DESIGN.md 9/C08",
+    level_text="Exhaustive within bounds on the real queue.",
+)
